@@ -382,14 +382,52 @@ Print Assumptions C13_asm_inventory_covered.
 From Webp Require Import Arch.ArchAsm Arch.ArchAsmPinned.
 From WebpGen Require AsmAmd64.
 
-(** Interpreting the instruction list of sse4x4SSE2 - regenerated from
-    internal/dsp/ssim_amd64.s on every run - with the SSE2 semantics of
-    Arch/ArchAsm.v, on any memory of bytes, returns exactly the lane model (and
-    hence, by C13_lane16_sse_eq, the portable sse4x4). *)
+(** Interpreting the instruction lists - regenerated from the .s files on every
+    run - with the SSE2/VEX semantics of Arch/ArchAsm.v, on ANY memory, returns
+    exactly the lane models (run_real / run_st_real: the interpreter instantiated
+    with the real lane operations).  The range theorems and the lane16-wrap
+    refutations above are thereby statements about the assembly as written. *)
 Theorem C13_asm_sse4x4_eq_model : forall m, (forall b o, 0 <= m b o <= 255) ->
-  run 100 AsmAmd64.asm_sse4x4SSE2 0 (init_state m) = Some (l_sse_list (block4 m "pix") (block4 m "ref")).
-Proof. exact asm_sse4x4_eq_model. Qed.
+  run_real 100 AsmAmd64.asm_sse4x4SSE2 0 (init_state m) = Some (l_sse_list (block4 m "pix") (block4 m "ref")).
+Proof. exact asm_sse4x4_eq_model_real. Qed.
 Print Assumptions C13_asm_sse4x4_eq_model.
+
+(** sse16x16SSE2: the counted loop is executed by the interpreter. *)
+Theorem C13_asm_sse16x16_eq_model : forall m, (forall b o, 0 <= m b o <= 255) ->
+  run_real 600 AsmAmd64.asm_sse16x16SSE2 0 (init_state m) = Some (l_sse_list (block16 m "pix") (block16 m "ref")).
+Proof. exact asm_sse16x16_eq_model_real. Qed.
+Print Assumptions C13_asm_sse16x16_eq_model.
+
+(** transformWHTSSE2 = lane16_wht (no hypothesis on the coefficients: equality of
+    the assembly with the 16-bit-lane model, wraps included). *)
+Theorem C13_asm_iwht_is_lane16_wht : forall m mw,
+  option_map (fun s => out_words s (map (Z.mul 16) idx16))
+             (run_st_real 200 AsmAmd64.asm_transformWHTSSE2 0 (init_state_w m mw wht_args))
+  = res_list (lane16_wht (map (mw "in") idx16)).
+Proof. exact asm_iwht_is_lane16_wht. Qed.
+Print Assumptions C13_asm_iwht_is_lane16_wht.
+
+Theorem C13_asm_fwht_is_lane16_fwht : forall m mw,
+  option_map (fun s => out_words s idx16)
+             (run_st_real 200 AsmAmd64.asm_fTransformWHTSSE2 0 (init_state_w m mw wht_args))
+  = res_list (lane16_fwht (map (mw "in") idx16)).
+Proof. exact asm_fwht_is_lane16_fwht. Qed.
+Print Assumptions C13_asm_fwht_is_lane16_fwht.
+
+(** iTransformOneSSE2 and its VEX-encoded twin iTransformOneAVX2 = lane16_idct. *)
+Theorem C13_asm_idct_is_lane16_idct : forall m mw,
+  option_map (fun s => map (stored (bst s) "dst") dst_offsets)
+             (run_st_real 300 AsmAmd64.asm_iTransformOneSSE2 0 (init_state_w m mw idct_args))
+  = res_list (lane16_idct (map (mw "in") idx16) (map (m "ref") dst_offsets)).
+Proof. exact asm_idct_is_lane16_idct. Qed.
+Print Assumptions C13_asm_idct_is_lane16_idct.
+
+Theorem C13_asm_idct_avx2_is_lane16_idct : forall m mw,
+  option_map (fun s => map (stored (bst s) "dst") dst_offsets)
+             (run_st_real 300 AsmAmd64.asm_iTransformOneAVX2 0 (init_state_w m mw idct_args))
+  = res_list (lane16_idct (map (mw "in") idx16) (map (m "ref") dst_offsets)).
+Proof. exact asm_idct_avx2_is_lane16_idct. Qed.
+Print Assumptions C13_asm_idct_avx2_is_lane16_idct.
 
 (** Every other routine body (amd64 and arm64) and the DATA tables are pinned. *)
 Theorem C13_asm_bodies_pinned :
